@@ -224,6 +224,13 @@ EXC = {'KeyError': KeyError, 'ValueError': ValueError, 'RuntimeError': RuntimeEr
        'TypeError': TypeError, 'ZeroDivisionError': ZeroDivisionError}
 
 
+class RaisingScope:
+  """an invalid scope value whose very inspection raises (like the truth value of an array)"""
+
+  def __bool__(self):
+    raise ValueError('truth value of RaisingScope is undefined')
+
+
 class BaseBoom(BaseException):
   """a non-Exception exception (like KeyboardInterrupt, SystemExit, GeneratorExit) raised by a body"""
 
@@ -445,7 +452,11 @@ class Machine:
 
   def snapshot(self):
     cfg = self.cfg
-    return {'locked': bool(cfg.config_is_locked()), 'scope': list(cfg.current_scope()),
+    try:
+      scope = list(cfg.current_scope())
+    except Exception as e:  # pylint: disable=broad-except
+      scope = ['<current_scope() raised %s>' % type(e).__name__]     # the stack itself is broken
+    return {'locked': bool(cfg.config_is_locked()), 'scope': scope,
             'config': self.dump(cfg._CONFIG),  # pylint: disable=protected-access
             'registry': sorted(k for k, _ in cfg._REGISTRY.items()),  # pylint: disable=protected-access
             'interactive': bool(cfg._INTERACTIVE_MODE)}  # pylint: disable=protected-access
@@ -503,7 +514,7 @@ class Machine:
     elif k == 'with':
       arg = op[1]
       if isinstance(arg, dict):   # SBad
-        arg = 5
+        arg = RaisingScope() if arg.get('raises') else 5
       with gin.config_scope(arg) as sc:
         self.emit(list(sc))
         for o in op[2]:
